@@ -152,7 +152,7 @@ def C02_converges_full : Prop :=
 
 /-- the witness chain (built by the producer model: block 1 empty, blocks 2 and 4 hold the same transaction
 list `[[7]]`) is a good chain -/
-theorem witness_good : GoodChain wC wch 4 := goodChain_of_check wC _ 4 (by decide) wFacts.1
+theorem witness_good : GoodChain wC wch 4 := goodChain_of_check wC _ 4 (by decide) wf_check4
 
 /-- **The full statement fails** (kernel-checked): all eight events delivered *in order*; the data of block 4
 has the same commitment as the data of block 2 (the commitment ignores the metadata), is dropped as "already
@@ -161,7 +161,7 @@ seen", and the node stalls at height 3 although everything up to 4 was delivered
 theorem C02_converges_fails : ¬ C02_converges_full := by
   intro h
   have := h wC wch 4 wInOrder witness_good
-  rw [wFacts.2.1, wFacts.2.2.1] at this
+  rw [wf_stall, wf_ready4] at this
   exact absurd this (by decide)
 
 /-! ## non-vacuity -/
@@ -169,21 +169,21 @@ theorem C02_converges_fails : ¬ C02_converges_full := by
 /-- the hypotheses of (a)–(c) are met by a chain the producer model builds, with repeated transaction lists -/
 example : GoodChain wC wch 4 ∧ wProd.store.height = 4 ∧
     (wch 2).map (·.data.txs) = some [[7]] ∧ (wch 4).map (·.data.txs) = some [[7]] :=
-  ⟨witness_good, wFacts.2.2.2.2.2.2.1⟩
+  ⟨witness_good, wf_chain⟩
 
-theorem witness3_good : GoodChain wC wch3 3 := goodChain_of_check wC _ 3 (by decide) wFacts.2.2.2.1
-theorem witness3_distinct : DistinctCommitments wch3 := distinct_of_check 1 3 _ wFacts.2.2.2.2.1
+theorem witness3_good : GoodChain wC wch3 3 := goodChain_of_check wC _ 3 (by decide) wf_check3
+theorem witness3_distinct : DistinctCommitments wch3 := distinct_of_check 1 3 _ wf_distinct3
 
 /-- the hypotheses of (d) are met, and the theorem yields a non-trivial height: the first three blocks,
 delivered out of order and with duplicates, are all applied -/
 example : (run wC wch3 wShuffled).store.height = 3 := by
-  rw [C02_converges_partial_run witness3_good witness3_distinct]; exact wFacts.2.2.2.2.2.1
+  rw [C02_converges_partial_run witness3_good witness3_distinct]; exact wf_readyShuffled
 
 /-- (a) is not vacuous: on that run three blocks are stored, each the proposer's -/
 example : ∀ k, 1 ≤ k → k ≤ 3 → ∃ b sb, wch3 k = some b ∧ (run wC wch3 wShuffled).store.getBlock k = some sb ∧ sb.sh = b.sh := by
   intro k h1 h2
   have h3 : (run wC wch3 wShuffled).store.height = 3 := by
-    rw [C02_converges_partial_run witness3_good witness3_distinct]; exact wFacts.2.2.2.2.2.1
+    rw [C02_converges_partial_run witness3_good witness3_distinct]; exact wf_readyShuffled
   have := (C02_safety witness3_good (wShuffled.map .ev)).2.2 k h1 (by rw [← run_eq_runOps, h3]; exact h2)
   rw [← run_eq_runOps] at this
   obtain ⟨b, sb, a, b', c', _⟩ := this
